@@ -34,7 +34,7 @@ Inductive call := KConnect | KCursor | KExecute (q : stmt) | KCommit | KRollback
 Record event : Type := Ev { e_call : call; e_con : nat; e_ok : bool; e_lock : bool; e_txn : bool; e_mine : bool; e_pend : nat }.
 Definition ev5 (k : call) (id : nat) (ok lk txn : bool) : event := Ev k id ok lk txn false 0.
 
-Inductive exn := EDb | EDrv | EUnexp | ECommit | ERollback | EBody | EAssert | EConnClosed | ERuntime.
+Inductive exn := EDb | EDrv | EAttr | EUnexp | ECommit | ERollback | EBody | EAssert | EConnClosed | ERuntime.
 Inductive res := Ok | Err (e : exn) | Blocked.
 
 Inductive badness := BadReleaseUnlocked | BadStolenLock | BadSelfDeadlock | BadDoubleCheckout | BadDoubleRelease | BadDeadConn | BadLeakOnConnect.
@@ -47,6 +47,7 @@ Record st : Type := mkSt {
   p_fk : bool;
   p_cs : bool;
   p_txn : bool;
+  p_pidset : bool;
   out : bool;
   next : nat;
   closed : list nat;
@@ -64,28 +65,29 @@ Record st : Type := mkSt {
   bad : list badness
 }.
 
-Definition set_lock (v : bool) (s : st) : st := mkSt v (mine s) (p_has s) (p_id s) (p_fk s) (p_cs s) (p_txn s) (out s) (next s) (closed s) (sess s) (k_reg s) (k_has s) (k_id s) (k_intxn s) (k_imm s) (k_fk s) (k_pending s) (k_forupd s) (ncall s) (trace s) (bad s).
-Definition set_mine (v : bool) (s : st) : st := mkSt (lock s) v (p_has s) (p_id s) (p_fk s) (p_cs s) (p_txn s) (out s) (next s) (closed s) (sess s) (k_reg s) (k_has s) (k_id s) (k_intxn s) (k_imm s) (k_fk s) (k_pending s) (k_forupd s) (ncall s) (trace s) (bad s).
-Definition set_p_has (v : bool) (s : st) : st := mkSt (lock s) (mine s) v (p_id s) (p_fk s) (p_cs s) (p_txn s) (out s) (next s) (closed s) (sess s) (k_reg s) (k_has s) (k_id s) (k_intxn s) (k_imm s) (k_fk s) (k_pending s) (k_forupd s) (ncall s) (trace s) (bad s).
-Definition set_p_id (v : nat) (s : st) : st := mkSt (lock s) (mine s) (p_has s) v (p_fk s) (p_cs s) (p_txn s) (out s) (next s) (closed s) (sess s) (k_reg s) (k_has s) (k_id s) (k_intxn s) (k_imm s) (k_fk s) (k_pending s) (k_forupd s) (ncall s) (trace s) (bad s).
-Definition set_p_fk (v : bool) (s : st) : st := mkSt (lock s) (mine s) (p_has s) (p_id s) v (p_cs s) (p_txn s) (out s) (next s) (closed s) (sess s) (k_reg s) (k_has s) (k_id s) (k_intxn s) (k_imm s) (k_fk s) (k_pending s) (k_forupd s) (ncall s) (trace s) (bad s).
-Definition set_p_cs (v : bool) (s : st) : st := mkSt (lock s) (mine s) (p_has s) (p_id s) (p_fk s) v (p_txn s) (out s) (next s) (closed s) (sess s) (k_reg s) (k_has s) (k_id s) (k_intxn s) (k_imm s) (k_fk s) (k_pending s) (k_forupd s) (ncall s) (trace s) (bad s).
-Definition set_p_txn (v : bool) (s : st) : st := mkSt (lock s) (mine s) (p_has s) (p_id s) (p_fk s) (p_cs s) v (out s) (next s) (closed s) (sess s) (k_reg s) (k_has s) (k_id s) (k_intxn s) (k_imm s) (k_fk s) (k_pending s) (k_forupd s) (ncall s) (trace s) (bad s).
-Definition set_out (v : bool) (s : st) : st := mkSt (lock s) (mine s) (p_has s) (p_id s) (p_fk s) (p_cs s) (p_txn s) v (next s) (closed s) (sess s) (k_reg s) (k_has s) (k_id s) (k_intxn s) (k_imm s) (k_fk s) (k_pending s) (k_forupd s) (ncall s) (trace s) (bad s).
-Definition set_next (v : nat) (s : st) : st := mkSt (lock s) (mine s) (p_has s) (p_id s) (p_fk s) (p_cs s) (p_txn s) (out s) v (closed s) (sess s) (k_reg s) (k_has s) (k_id s) (k_intxn s) (k_imm s) (k_fk s) (k_pending s) (k_forupd s) (ncall s) (trace s) (bad s).
-Definition set_closed (v : list nat) (s : st) : st := mkSt (lock s) (mine s) (p_has s) (p_id s) (p_fk s) (p_cs s) (p_txn s) (out s) (next s) v (sess s) (k_reg s) (k_has s) (k_id s) (k_intxn s) (k_imm s) (k_fk s) (k_pending s) (k_forupd s) (ncall s) (trace s) (bad s).
-Definition set_sess (v : shape) (s : st) : st := mkSt (lock s) (mine s) (p_has s) (p_id s) (p_fk s) (p_cs s) (p_txn s) (out s) (next s) (closed s) v (k_reg s) (k_has s) (k_id s) (k_intxn s) (k_imm s) (k_fk s) (k_pending s) (k_forupd s) (ncall s) (trace s) (bad s).
-Definition set_k_reg (v : bool) (s : st) : st := mkSt (lock s) (mine s) (p_has s) (p_id s) (p_fk s) (p_cs s) (p_txn s) (out s) (next s) (closed s) (sess s) v (k_has s) (k_id s) (k_intxn s) (k_imm s) (k_fk s) (k_pending s) (k_forupd s) (ncall s) (trace s) (bad s).
-Definition set_k_has (v : bool) (s : st) : st := mkSt (lock s) (mine s) (p_has s) (p_id s) (p_fk s) (p_cs s) (p_txn s) (out s) (next s) (closed s) (sess s) (k_reg s) v (k_id s) (k_intxn s) (k_imm s) (k_fk s) (k_pending s) (k_forupd s) (ncall s) (trace s) (bad s).
-Definition set_k_id (v : nat) (s : st) : st := mkSt (lock s) (mine s) (p_has s) (p_id s) (p_fk s) (p_cs s) (p_txn s) (out s) (next s) (closed s) (sess s) (k_reg s) (k_has s) v (k_intxn s) (k_imm s) (k_fk s) (k_pending s) (k_forupd s) (ncall s) (trace s) (bad s).
-Definition set_k_intxn (v : bool) (s : st) : st := mkSt (lock s) (mine s) (p_has s) (p_id s) (p_fk s) (p_cs s) (p_txn s) (out s) (next s) (closed s) (sess s) (k_reg s) (k_has s) (k_id s) v (k_imm s) (k_fk s) (k_pending s) (k_forupd s) (ncall s) (trace s) (bad s).
-Definition set_k_imm (v : bool) (s : st) : st := mkSt (lock s) (mine s) (p_has s) (p_id s) (p_fk s) (p_cs s) (p_txn s) (out s) (next s) (closed s) (sess s) (k_reg s) (k_has s) (k_id s) (k_intxn s) v (k_fk s) (k_pending s) (k_forupd s) (ncall s) (trace s) (bad s).
-Definition set_k_fk (v : bool) (s : st) : st := mkSt (lock s) (mine s) (p_has s) (p_id s) (p_fk s) (p_cs s) (p_txn s) (out s) (next s) (closed s) (sess s) (k_reg s) (k_has s) (k_id s) (k_intxn s) (k_imm s) v (k_pending s) (k_forupd s) (ncall s) (trace s) (bad s).
-Definition set_k_pending (v : nat) (s : st) : st := mkSt (lock s) (mine s) (p_has s) (p_id s) (p_fk s) (p_cs s) (p_txn s) (out s) (next s) (closed s) (sess s) (k_reg s) (k_has s) (k_id s) (k_intxn s) (k_imm s) (k_fk s) v (k_forupd s) (ncall s) (trace s) (bad s).
-Definition set_k_forupd (v : nat) (s : st) : st := mkSt (lock s) (mine s) (p_has s) (p_id s) (p_fk s) (p_cs s) (p_txn s) (out s) (next s) (closed s) (sess s) (k_reg s) (k_has s) (k_id s) (k_intxn s) (k_imm s) (k_fk s) (k_pending s) v (ncall s) (trace s) (bad s).
-Definition set_ncall (v : nat) (s : st) : st := mkSt (lock s) (mine s) (p_has s) (p_id s) (p_fk s) (p_cs s) (p_txn s) (out s) (next s) (closed s) (sess s) (k_reg s) (k_has s) (k_id s) (k_intxn s) (k_imm s) (k_fk s) (k_pending s) (k_forupd s) v (trace s) (bad s).
-Definition set_trace (v : list event) (s : st) : st := mkSt (lock s) (mine s) (p_has s) (p_id s) (p_fk s) (p_cs s) (p_txn s) (out s) (next s) (closed s) (sess s) (k_reg s) (k_has s) (k_id s) (k_intxn s) (k_imm s) (k_fk s) (k_pending s) (k_forupd s) (ncall s) v (bad s).
-Definition set_bad (v : list badness) (s : st) : st := mkSt (lock s) (mine s) (p_has s) (p_id s) (p_fk s) (p_cs s) (p_txn s) (out s) (next s) (closed s) (sess s) (k_reg s) (k_has s) (k_id s) (k_intxn s) (k_imm s) (k_fk s) (k_pending s) (k_forupd s) (ncall s) (trace s) v.
+Definition set_lock (v : bool) (s : st) : st := mkSt v (mine s) (p_has s) (p_id s) (p_fk s) (p_cs s) (p_txn s) (p_pidset s) (out s) (next s) (closed s) (sess s) (k_reg s) (k_has s) (k_id s) (k_intxn s) (k_imm s) (k_fk s) (k_pending s) (k_forupd s) (ncall s) (trace s) (bad s).
+Definition set_mine (v : bool) (s : st) : st := mkSt (lock s) v (p_has s) (p_id s) (p_fk s) (p_cs s) (p_txn s) (p_pidset s) (out s) (next s) (closed s) (sess s) (k_reg s) (k_has s) (k_id s) (k_intxn s) (k_imm s) (k_fk s) (k_pending s) (k_forupd s) (ncall s) (trace s) (bad s).
+Definition set_p_has (v : bool) (s : st) : st := mkSt (lock s) (mine s) v (p_id s) (p_fk s) (p_cs s) (p_txn s) (p_pidset s) (out s) (next s) (closed s) (sess s) (k_reg s) (k_has s) (k_id s) (k_intxn s) (k_imm s) (k_fk s) (k_pending s) (k_forupd s) (ncall s) (trace s) (bad s).
+Definition set_p_id (v : nat) (s : st) : st := mkSt (lock s) (mine s) (p_has s) v (p_fk s) (p_cs s) (p_txn s) (p_pidset s) (out s) (next s) (closed s) (sess s) (k_reg s) (k_has s) (k_id s) (k_intxn s) (k_imm s) (k_fk s) (k_pending s) (k_forupd s) (ncall s) (trace s) (bad s).
+Definition set_p_fk (v : bool) (s : st) : st := mkSt (lock s) (mine s) (p_has s) (p_id s) v (p_cs s) (p_txn s) (p_pidset s) (out s) (next s) (closed s) (sess s) (k_reg s) (k_has s) (k_id s) (k_intxn s) (k_imm s) (k_fk s) (k_pending s) (k_forupd s) (ncall s) (trace s) (bad s).
+Definition set_p_cs (v : bool) (s : st) : st := mkSt (lock s) (mine s) (p_has s) (p_id s) (p_fk s) v (p_txn s) (p_pidset s) (out s) (next s) (closed s) (sess s) (k_reg s) (k_has s) (k_id s) (k_intxn s) (k_imm s) (k_fk s) (k_pending s) (k_forupd s) (ncall s) (trace s) (bad s).
+Definition set_p_txn (v : bool) (s : st) : st := mkSt (lock s) (mine s) (p_has s) (p_id s) (p_fk s) (p_cs s) v (p_pidset s) (out s) (next s) (closed s) (sess s) (k_reg s) (k_has s) (k_id s) (k_intxn s) (k_imm s) (k_fk s) (k_pending s) (k_forupd s) (ncall s) (trace s) (bad s).
+Definition set_p_pidset (v : bool) (s : st) : st := mkSt (lock s) (mine s) (p_has s) (p_id s) (p_fk s) (p_cs s) (p_txn s) v (out s) (next s) (closed s) (sess s) (k_reg s) (k_has s) (k_id s) (k_intxn s) (k_imm s) (k_fk s) (k_pending s) (k_forupd s) (ncall s) (trace s) (bad s).
+Definition set_out (v : bool) (s : st) : st := mkSt (lock s) (mine s) (p_has s) (p_id s) (p_fk s) (p_cs s) (p_txn s) (p_pidset s) v (next s) (closed s) (sess s) (k_reg s) (k_has s) (k_id s) (k_intxn s) (k_imm s) (k_fk s) (k_pending s) (k_forupd s) (ncall s) (trace s) (bad s).
+Definition set_next (v : nat) (s : st) : st := mkSt (lock s) (mine s) (p_has s) (p_id s) (p_fk s) (p_cs s) (p_txn s) (p_pidset s) (out s) v (closed s) (sess s) (k_reg s) (k_has s) (k_id s) (k_intxn s) (k_imm s) (k_fk s) (k_pending s) (k_forupd s) (ncall s) (trace s) (bad s).
+Definition set_closed (v : list nat) (s : st) : st := mkSt (lock s) (mine s) (p_has s) (p_id s) (p_fk s) (p_cs s) (p_txn s) (p_pidset s) (out s) (next s) v (sess s) (k_reg s) (k_has s) (k_id s) (k_intxn s) (k_imm s) (k_fk s) (k_pending s) (k_forupd s) (ncall s) (trace s) (bad s).
+Definition set_sess (v : shape) (s : st) : st := mkSt (lock s) (mine s) (p_has s) (p_id s) (p_fk s) (p_cs s) (p_txn s) (p_pidset s) (out s) (next s) (closed s) v (k_reg s) (k_has s) (k_id s) (k_intxn s) (k_imm s) (k_fk s) (k_pending s) (k_forupd s) (ncall s) (trace s) (bad s).
+Definition set_k_reg (v : bool) (s : st) : st := mkSt (lock s) (mine s) (p_has s) (p_id s) (p_fk s) (p_cs s) (p_txn s) (p_pidset s) (out s) (next s) (closed s) (sess s) v (k_has s) (k_id s) (k_intxn s) (k_imm s) (k_fk s) (k_pending s) (k_forupd s) (ncall s) (trace s) (bad s).
+Definition set_k_has (v : bool) (s : st) : st := mkSt (lock s) (mine s) (p_has s) (p_id s) (p_fk s) (p_cs s) (p_txn s) (p_pidset s) (out s) (next s) (closed s) (sess s) (k_reg s) v (k_id s) (k_intxn s) (k_imm s) (k_fk s) (k_pending s) (k_forupd s) (ncall s) (trace s) (bad s).
+Definition set_k_id (v : nat) (s : st) : st := mkSt (lock s) (mine s) (p_has s) (p_id s) (p_fk s) (p_cs s) (p_txn s) (p_pidset s) (out s) (next s) (closed s) (sess s) (k_reg s) (k_has s) v (k_intxn s) (k_imm s) (k_fk s) (k_pending s) (k_forupd s) (ncall s) (trace s) (bad s).
+Definition set_k_intxn (v : bool) (s : st) : st := mkSt (lock s) (mine s) (p_has s) (p_id s) (p_fk s) (p_cs s) (p_txn s) (p_pidset s) (out s) (next s) (closed s) (sess s) (k_reg s) (k_has s) (k_id s) v (k_imm s) (k_fk s) (k_pending s) (k_forupd s) (ncall s) (trace s) (bad s).
+Definition set_k_imm (v : bool) (s : st) : st := mkSt (lock s) (mine s) (p_has s) (p_id s) (p_fk s) (p_cs s) (p_txn s) (p_pidset s) (out s) (next s) (closed s) (sess s) (k_reg s) (k_has s) (k_id s) (k_intxn s) v (k_fk s) (k_pending s) (k_forupd s) (ncall s) (trace s) (bad s).
+Definition set_k_fk (v : bool) (s : st) : st := mkSt (lock s) (mine s) (p_has s) (p_id s) (p_fk s) (p_cs s) (p_txn s) (p_pidset s) (out s) (next s) (closed s) (sess s) (k_reg s) (k_has s) (k_id s) (k_intxn s) (k_imm s) v (k_pending s) (k_forupd s) (ncall s) (trace s) (bad s).
+Definition set_k_pending (v : nat) (s : st) : st := mkSt (lock s) (mine s) (p_has s) (p_id s) (p_fk s) (p_cs s) (p_txn s) (p_pidset s) (out s) (next s) (closed s) (sess s) (k_reg s) (k_has s) (k_id s) (k_intxn s) (k_imm s) (k_fk s) v (k_forupd s) (ncall s) (trace s) (bad s).
+Definition set_k_forupd (v : nat) (s : st) : st := mkSt (lock s) (mine s) (p_has s) (p_id s) (p_fk s) (p_cs s) (p_txn s) (p_pidset s) (out s) (next s) (closed s) (sess s) (k_reg s) (k_has s) (k_id s) (k_intxn s) (k_imm s) (k_fk s) (k_pending s) v (ncall s) (trace s) (bad s).
+Definition set_ncall (v : nat) (s : st) : st := mkSt (lock s) (mine s) (p_has s) (p_id s) (p_fk s) (p_cs s) (p_txn s) (p_pidset s) (out s) (next s) (closed s) (sess s) (k_reg s) (k_has s) (k_id s) (k_intxn s) (k_imm s) (k_fk s) (k_pending s) (k_forupd s) v (trace s) (bad s).
+Definition set_trace (v : list event) (s : st) : st := mkSt (lock s) (mine s) (p_has s) (p_id s) (p_fk s) (p_cs s) (p_txn s) (p_pidset s) (out s) (next s) (closed s) (sess s) (k_reg s) (k_has s) (k_id s) (k_intxn s) (k_imm s) (k_fk s) (k_pending s) (k_forupd s) (ncall s) v (bad s).
+Definition set_bad (v : list badness) (s : st) : st := mkSt (lock s) (mine s) (p_has s) (p_id s) (p_fk s) (p_cs s) (p_txn s) (p_pidset s) (out s) (next s) (closed s) (sess s) (k_reg s) (k_has s) (k_id s) (k_intxn s) (k_imm s) (k_fk s) (k_pending s) (k_forupd s) (ncall s) (trace s) v.
 
 Definition log (k : call) (id : nat) (ok : bool) (txn : bool) (s : st) : st :=
   set_ncall (S (ncall s)) (set_trace (Ev k id ok (lock s) txn (mine s) (k_pending s) :: trace s) s).
@@ -153,10 +155,15 @@ Definition release_lock : M := fun s =>
   if lock s then (Ok, set_mine false (set_lock false (if mine s then s else add_bad BadStolenLock s)))
   else (Err ERuntime, add_bad BadReleaseUnlocked s).
 
-(* ---- Pool.connect + SQLitePool._connect;  DBAPIProvider.connect ---- *)
+(* ---- Pool.connect + SQLitePool._connect;  DBAPIProvider.connect ----
+   Pool.connect: `if pool.con is not None and pool.pid != pid: ...` (fork check, C36), then `if pool.con is None: pool._connect();
+   pool.pid = pid`.  SQLitePool.__init__ (run once per thread) does not create the attribute `pid`, and SQLitePool._connect
+   assigns pool.con before it runs the two PRAGMAs; p_pidset = the attribute exists. *)
 Definition pool_connect : M := fun s =>
-  if p_has s then (Ok, s)
-  else (db_connect ;; (fun s1 => dbcall (KExecute SFkOn) (p_id s1) s1) ;; (fun s1 => dbcall (KExecute SCsLike) (p_id s1) s1)) s.
+  if p_has s
+  then (if p_pidset s then (Ok, s) else (Err EAttr, s))     (* `pool.pid != pid` on a SQLitePool whose pid was never assigned *)
+  else (db_connect ;; (fun s1 => dbcall (KExecute SFkOn) (p_id s1) s1) ;; (fun s1 => dbcall (KExecute SCsLike) (p_id s1) s1) ;;
+        upd (set_p_pidset true)) s.
 Definition prov_connect : M :=
   pool_connect ;; (fun s => (Ok, set_out true (if out s then add_bad BadDoubleCheckout s else s))).
 
@@ -353,9 +360,12 @@ Fixpoint run_sessions (l : list (shape * list (op * bool))) : M :=
 
 End WithOracle.
 
-(* initial states: nothing in the pool / the connection made by Database.bind() sits in the pool *)
-Definition st_empty : st := mkSt false false false 0 false false false false 0 [] ShOpt false false 0 false false false 0 0 0 [] [].
-Definition st_pooled : st := mkSt false false true 0 true true false false 1 [] ShOpt false false 0 false false false 0 0 0 [] [].
+(* initial states: a thread that never connected / the connection made by Database.bind() sits in the pool /
+   the thread connected before and disconnected (pool.pid exists) *)
+Definition st_empty : st := mkSt false false false 0 false false false false false 0 [] ShOpt false false 0 false false false 0 0 0 [] [].
+Definition st_pooled : st := mkSt false false true 0 true true false true false 1 [] ShOpt false false 0 false false false 0 0 0 [] [].
+
+Definition st_disconnected : st := set_p_pidset true st_empty.
 
 Definition faults_oracle (fs : list nat) : nat -> bool := fun n => existsb (Nat.eqb n) fs.
 
@@ -373,7 +383,7 @@ Definition event_eqb (a b : event) : bool :=
 Fixpoint list_eqb {A} (f : A -> A -> bool) (l1 l2 : list A) : bool :=
   match l1, l2 with [] , [] => true | x :: l1', y :: l2' => f x y && list_eqb f l1' l2' | _, _ => false end.
 Definition exn_eqb (a b : exn) : bool :=
-  match a, b with EDb, EDb | EDrv, EDrv | EUnexp, EUnexp | ECommit, ECommit | ERollback, ERollback | EBody, EBody | EAssert, EAssert
+  match a, b with EDb, EDb | EDrv, EDrv | EAttr, EAttr | EUnexp, EUnexp | ECommit, ECommit | ERollback, ERollback | EBody, EBody | EAssert, EAssert
                 | EConnClosed, EConnClosed | ERuntime, ERuntime => true | _, _ => false end.
 Definition res_eqb (a b : res) : bool :=
   match a, b with Ok, Ok | Blocked, Blocked => true | Err x, Err y => exn_eqb x y | _, _ => false end.
